@@ -685,6 +685,34 @@ pub fn family(name: &str, tier: Tier) -> Vec<Scenario> {
                 v.push(one("F6c", vec![FileSpec::new(&w, 2, Feed::Cut(usize::MAX))]));
             }
         },
+        // production constants (64 KiB target, default limits): raw LCG contents with sizes at and past the
+        // chunk / ingestion-block / xorb limits, repeated blocks, re-upload in a second session
+        "F7" => {
+            let mib = 1usize << 20;
+            let mut contents: Vec<(u64, usize, usize)> = vec![(1, 200_000, 0), (2, mib, 3 * 65536), (3, 131_072, 1), (4, 65_536 * 2 + 1, 0)];
+            if tier == Tier::Thorough {
+                contents.extend(vec![(5, 9 * mib + 17, 0), (6, 12 * mib, mib), (7, 70 * mib, 0), (8, 66 * mib, 2 * mib), (9, 8 * mib, 0), (10, 8 * mib + 1, 0)]);
+            }
+            for (seed, len, period) in contents {
+                let feeds = if len > 4 * mib { vec![Feed::Whole, Feed::Step(mib)] } else { vec![Feed::Whole, Feed::Step(60_000)] };
+                for feed in feeds {
+                    let f = FileSpec::raw(seed, len, period, feed);
+                    // alone, and re-uploaded unchanged in a second session
+                    v.push(Scenario {
+                        family: "F7".into(),
+                        sessions: vec![SessionSpec::seq(vec![f.clone()]), SessionSpec::seq(vec![f])],
+                    });
+                }
+            }
+            // several files in one session, then one of them extended
+            let a = FileSpec::raw(21, 300_000, 0, Feed::Whole);
+            let b = FileSpec::raw(22, 100, 0, Feed::Whole);
+            let c = FileSpec::raw(21, 500_000, 0, Feed::Step(70_000));
+            v.push(Scenario {
+                family: "F7".into(),
+                sessions: vec![SessionSpec::seq(vec![a, b.clone()]), SessionSpec::seq(vec![c, b])],
+            });
+        },
         // salts
         "FS" => {
             for w in words(3, tier.pick(2, 3)) {
